@@ -63,6 +63,7 @@ EXTRA = [
 def corpus_list():
     names = ('seq-choice', 'star-sep', 'plus-sep-obj', 'eolterm', 'eolterm-sep-asg', 'ung-sep', 'pred-not-kw',
              'suppress-match-rule', 'abstract', 'nested-obj', 'recursive', 'comment-line', 'comment-block',
+             'comment-line-ignore-case', 'comment-rule-ref',
              'noskipws-rule', 'noskipws-inherit', 'noskipws-reset', 'ws-rule', 'ws-rule-comment',
              'global-noskipws', 'global-ws', 'optional-attrs', 'kw-ident')
     return [g for g in corpus.BASIC if g['name'] in names] + EXTRA
